@@ -255,16 +255,21 @@ func acceptsOfferType(spec, offerType string, specParams headerParams) bool {
 		offerParams = offerType[i:]
 	}
 
-	// Accept: */*
-	if spec == "*/*" {
-		return paramsMatch(specParams, offerParams)
-	}
-
 	var mimetype string
 	if strings.IndexByte(offerMime, '/') != -1 {
 		mimetype = offerMime // MIME type
 	} else {
 		mimetype = utils.GetMIME(offerMime) // extension
+		// for extensions that fiber's own table lacks the system's table answers, possibly with a
+		// parameter ("mjs" is "text/javascript; charset=utf-8"): it belongs to the offer, not to the type
+		if i := strings.IndexByte(mimetype, ';'); i != -1 {
+			mimetype, offerParams = utils.TrimRight(mimetype[:i], ' '), mimetype[i:]
+		}
+	}
+
+	// Accept: */*
+	if spec == "*/*" {
+		return paramsMatch(specParams, offerParams)
 	}
 
 	// type and subtype are case-insensitive
